@@ -19,6 +19,12 @@ REPO = "/repo"
 
 # property -> list of (name, file relative to /repo, old, new)
 MUTANTS = {
+    "C19": [
+        ("pr-b-constant", "src/phreeqcpp/prep.cpp", "phase_ptr->pr_b = 0.077796 * R * T_c / P_c;", "phase_ptr->pr_b = 0.078796 * R * T_c / P_c;"),
+        ("kappa-term*", "src/phreeqcpp/prep.cpp", "kk = 0.37464 + oo * (1.54226 - 0.26992 * oo);", "kk = 0.37464 + oo * (1.54226 - 0.36992 * oo);"),
+        ("phi-cross-term", "src/phreeqcpp/prep.cpp", "(B_r - 2.0 * phase_ptr->pr_aa_sum2 / a_aa_sum)", "(B_r - 2.0 * phase_ptr->pr_aa_sum2 / a_aa_sum * (phase_ptrs.size() > 1 ? 1.001 : 1.0))"),
+        ("binary-parameter", "src/phreeqcpp/gases.cpp", "\t\tf = (1.0 - gas_pair_it->second);", "\t\tf = (1.0 - 0.5 * gas_pair_it->second);"),
+    ],
     "C15": [
         ("micro-factor", "src/phreeqcpp/prep.cpp", "\t\telse if (c == 'u')\n\t\t{\n\t\t\tmoles *= 1e-6;", "\t\telse if (c == 'u')\n\t\t{\n\t\t\tmoles *= 1.0000001e-6;"),
         ("grams-to-moles-only-mg", "src/phreeqcpp/prep.cpp", "if (strstr(comp_ref.Get_units().c_str(), \"g/\") != NULL && comp_ref.Get_gfw() != 0.0)", "if (strstr(comp_ref.Get_units().c_str(), \"mg/\") != NULL && comp_ref.Get_gfw() != 0.0)"),
